@@ -15,6 +15,7 @@ import (
 	"strings"
 	"sync"
 	"time"
+	_ "time/tzdata"
 
 	"github.com/beevik/etree"
 	saml2 "github.com/russellhaering/gosaml2"
@@ -27,6 +28,20 @@ import (
 	"verifharness/pyproj"
 	"verifharness/world"
 )
+
+var dstOnce sync.Once
+var dstLoc *time.Location
+
+func dstZone() *time.Location {
+	dstOnce.Do(func() {
+		l, err := time.LoadLocation("America/New_York") // from the embedded time/tzdata
+		if err != nil {
+			orch.Fatal("tzdata: %v", err)
+		}
+		dstLoc = l
+	})
+	return dstLoc
+}
 
 // Outbound concretises spec/Outbound.tla.
 type Outbound struct{}
@@ -49,6 +64,8 @@ type oInput struct {
 	Variant      string `json:"variant"`
 	Hours        string `json:"hours"`
 	Skip         bool   `json:"skip"`
+	Keytype      string `json:"keytype"`
+	Via          string `json:"via"`
 }
 
 type oObs struct {
@@ -204,7 +221,7 @@ func buildSP(in *oInput, st *oStrings, clock time.Time) *saml2.SAMLServiceProvid
 	if in.Rac != "nil" {
 		sp.RequestedAuthnContext = &saml2.RequestedAuthnContext{Comparison: st.Comparison, Contexts: st.Contexts}
 	}
-	ec := in.Alg == "ecdsa-sha256"
+	ec := in.Keytype == "ec"
 	tlsStore := func(k *idp.KeyPair) dsig.X509KeyStore {
 		return dsig.TLSCertKeyStore{Certificate: [][]byte{k.DER}, PrivateKey: k.Key}
 	}
@@ -509,8 +526,13 @@ func (Outbound) Run(c *orch.Case) *orch.Outcome {
 		orch.Fatal("outbound: bad case")
 	}
 	rng := rand.New(rand.NewSource(c.Seed))
-	zone := map[string]*time.Location{"utc": time.UTC, "+0530": time.FixedZone("", 19800), "-0800": time.FixedZone("", -28800)}[in.Zone]
+	zone := map[string]*time.Location{"utc": time.UTC, "+0530": time.FixedZone("", 19800), "-0800": time.FixedZone("", -28800), "dst": dstZone()}[in.Zone]
 	clock := world.Now.Add(time.Duration(rng.Intn(900)) * time.Millisecond).In(zone)
+	if in.Zone == "dst" {
+		// a zone that observes daylight saving, a few days before a transition (2031-03-09 and 2031-11-02 in New York)
+		base := []time.Time{time.Date(2031, 3, 5, 12, 0, 0, 0, zone), time.Date(2031, 10, 29, 12, 0, 0, 0, zone), time.Date(2031, 3, 9, 1, 30, 0, 0, zone)}[rng.Intn(3)]
+		clock = base.Add(time.Duration(rng.Intn(900)) * time.Millisecond)
+	}
 	st := stringsFor(in.Strclass, rng, in.Rac)
 	sp := buildSP(&in, st, clock)
 	o := &oObs{Children: []string{}}
